@@ -2,7 +2,7 @@
 # usage: tools/eval_mutant2.sh <Cxx> <A|B> <check> [<check>...]  - evaluates one delivered regression and appends the
 # result lines to seeded/results/<Cxx>-<A|B>.txt
 pid="$1"; v="$2"; shift 2
-p=/tmp/mut/m_$pid/out/$v/patch.diff
+p=/tmp/mut/${MUT_PREFIX:-m_}$pid/out/$v/patch.diff
 [ -f "$p" ] || p=/verif/seeded/$pid-$v/patch.diff
 [ -f "$p" ] || { echo "no patch for $pid/$v"; exit 1; }
 /verif/tools/try_mutant.sh "$p" quick "$@" 2>&1 | grep -E "exit=|PATCH" | tee -a /verif/seeded/results/$pid-$v.txt
